@@ -252,8 +252,35 @@ def check_kind(rp, kind, big=False):
     return out
 
 
+def fork_locality(rp):
+    """FORK starts the process on the executor's own node: it must refuse a task that is
+    placed anywhere else, whatever the two names look like"""
+    out = []
+    sbox = tempfile.mkdtemp(prefix='verif_lm_')
+    try:
+        for local, node, want in (('node10', 'node10', True), ('node10', 'localhost', True), ('node10', 'node1', False),
+                                  ('node10', 'node100', False), ('nid00012', 'nid0001', False), ('a.b.c', 'a', False),
+                                  ('node1', 'node10', False), ('n', '', False)):
+            lm = mk_lm(rp, 'FORK', sbox)
+            lm.node_name = local
+            task = mk_task([_slot(node, 1, [0])], sbox, use_mpi=False)
+            try:
+                ok, why = lm.can_launch(task)
+            except Exception as e:
+                out.append(('local node %r, task on %r' % (local, node), 'can_launch raises %r' % e)); continue
+            if bool(ok) != want:
+                out.append(('local node %r, task on %r' % (local, node),
+                            'FORK %s a task placed on node %r while running on node %r' % ('accepts' if ok else 'refuses', node, local)))
+    finally:
+        shutil.rmtree(sbox, ignore_errors=True)
+    return out
+
+
 def run_all(rp, tier='quick'):
     viol, n = [], 0
+    for pname, p in fork_locality(rp):
+        viol.append(dict(id='FORK:locality', detail='FORK, %s: %s' % (pname, p), input=dict(launcher='FORK', case=pname)))
+    n += 8
     for kind in KINDS:
         probs = check_kind(rp, kind, big=True)
         n += len(placements(True))
